@@ -3,6 +3,7 @@ package main
 import (
 	"errors"
 	"fmt"
+	"os"
 	"reflect"
 	"strings"
 	"sync"
@@ -206,6 +207,20 @@ func c19(args []string) int {
 			})
 			p, q := c19Fix(a, s)
 			return c19R(p, q)
+		})
+		// a standard-library function goom itself might consult (os.Getenv) is mocked while goom does configuration work:
+		// what the replacement sees must not depend on the logging mode
+		rec(fmt.Sprintf("%d/getenv-mocked", it), func() string {
+			gb := mocker.Create()
+			defer gb.Reset()
+			gb.Func(os.Getenv).Apply(func(k string) string {
+				log = append(log, "getenv:"+k)
+				return "v-" + k
+			})
+			gb.Func(c19Fix).Apply(func(x int, y string) (int, string) { return x + 2, y })
+			gb.Func(c19None).Return()
+			p, _ := c19Fix(a, s)
+			return c19R(os.Getenv("C19_KEY"), p)
 		})
 		xs := make([]int, r.Intn(4))
 		for i := range xs {
